@@ -147,6 +147,9 @@ theorem Segs.log_ret : s.log.any isRet = true ∧ (afterRet s.log).all isReload 
     have := h.post e he
     simpa using this
 
+theorem Segs.afterRet_log : afterRet s.log = s.post := by
+  rw [Segs.log_front, afterRet_append_of_noRet _ (Segs.front_noRet h), afterRet_ret_cons]
+
 /-- what precedes the shutdown sequence -/
 def Segs.before (s : Segs) : List Ev := s.starts ++ s.readies ++ s.reqIns ++ s.reloads ++ s.sig
 
